@@ -1290,6 +1290,26 @@ pub fn sweep_frames(pool: &Pool, what: &str) -> Vec<(Vec<u8>, String)> {
             for f in one_of_each.iter() {
                 v.push((f.clone(), String::new()));
             }
+            // "no other packet kind is ever rejected by the gate": IS_ISI carries an InSim version too (what the sender asks
+            // for) - all 256 values of it, and of the first payload byte of every other kind, with the gate on and off
+            let isi = insim::Packet::Isi(insim::insim::Isi { reqi: insim::identifiers::RequestId(1), ..Default::default() });
+            if let Ok(f) = try_encode(&pool.mode, &isi) {
+                // offset 8: InSimVer in IS_ISI (size type reqi zero udpport:2 flags:2 insimver prefix interval:2 ...)
+                for ver in 0..=255u8 {
+                    let mut g = f.clone();
+                    g[8] = ver;
+                    v.push((g, String::new()));
+                }
+            }
+            for f in one_of_each.iter() {
+                if f.len() > 4 && f[1] != 2 {
+                    for val in [0u8, 8, 10, 255] {
+                        let mut g = f.clone();
+                        g[4] = val;
+                        v.push((g, String::new()));
+                    }
+                }
+            }
         },
     }
     v.into_iter()
